@@ -1016,6 +1016,12 @@ impl<'de> serde::de::Visitor<'de> for ParsedValueSeed<'_> {
     where
         E: serde::de::Error,
     {
+        // YAML (`.inf`, `.nan`) and JSON5 (`Infinity`, `NaN`) can spell them, a Rust literal can't.
+        if !v.is_finite() {
+            return Err(serde::de::Error::custom(format!(
+                "non finite numbers are not supported as values (found {v})"
+            )));
+        }
         Ok(ParsedValue::Literal(Literal::Float(v)))
     }
 
